@@ -22,7 +22,7 @@ for s in names:
             m = re.match(r'bounded clause (.*?) fails on the real code', det)
             if m:
                 cls.append(m.group(1)[:110])
-    m = re.search(r'exit=(\d)', log[-1]) if log else None
+    m = next((x for x in (re.search(r' wall=\S+ exit=(\d)', ln) for ln in reversed(log)) if x), None)
     cell = lambda x: str(x).replace('|', '\\|').replace('\n', ' ')   # noqa: E731
     code = m.group(1) if m else '?'
     replayed = bool(cls) or any(o.endswith('(replayed)') for o in obs)
